@@ -324,7 +324,7 @@ fn check_int(e: &Expect, o: Obs, kind: OutKind) -> Verdict {
         if kind == OutKind::I64 { (v as i64) as f64 } else { (v as i32) as f64 }
     };
     match e {
-        Expect::Null => {
+        Expect::Null | Expect::NullTag(_) => {
             if plain {
                 // NaN as i32 == 0
                 if o.v == 0.0 { Verdict::Ok } else { Verdict::NullMismatch }
@@ -699,8 +699,13 @@ fn zscore_expect(cur: f64, vals: &[f64], e: &ErrCtx) -> Expect {
     let n = vals.len();
     let nf = n as f64;
     let (fl, vp, _) = var_floor(vals, e);
-    if n < 2 || vp <= 0.0 {
+    if n < 2 {
         return Expect::Null;
+    }
+    if vp <= 0.0 {
+        // zero spread: null is fixed by the property. On inexact data the one-pass variance is
+        // zero only up to its rounding residue (known finding when that residue exceeds EPS).
+        return if e.exact { Expect::NullTag("zero-spread") } else { Expect::NullTag("zero-spread-inexact-sums") };
     }
     match fl {
         Floor::Below => return Expect::OneOf(vec![Expect::Null, Expect::NonNull("variance below the EPS floor")]),
